@@ -22,6 +22,7 @@ type DemuxCfg struct {
 	HasFail       bool
 	FailAt        int // reader fault offset (when HasFail)
 	FailOnce      bool
+	FailWithData  bool   // the read crossing the fault offset returns n>0 together with the error
 	API           string // "data", "packet", "alt"
 	Skipper       astits.PacketSkipper
 	Parser        astits.PacketsParser
@@ -118,6 +119,7 @@ func NewDemuxerFor(input []byte, cfg DemuxCfg) (*astits.Demuxer, *mon.RTap) {
 	if cfg.HasFail {
 		tap.FailAt = cfg.FailAt
 		tap.FailOnce = cfg.FailOnce
+		tap.FailWithData = cfg.FailWithData
 	}
 	var rd io.Reader
 	switch cfg.Reader {
